@@ -95,7 +95,7 @@ func genC03(t *rapid.T) c03Case {
 	}
 	names := []string{"a", "b", "c", "d", "e"}
 	if c.Matcher {
-		names = append(names, "A", "Batch", "ⱥcme", "K") // match strings with upper-case letters and with letters that change length with their case, in both modes of the matcher
+		names = append(names, "A", "Batch", "ⱥcme", "K", "") // match strings with upper-case letters and with letters that change length with their case, in both modes of the matcher (the empty match string matches requests whose key is the empty string, not requests without a key)
 	}
 	if c.Kind == "lookup" {
 		names = append(names, "") // the empty string is a key like any other (it is what the default lookup yields for a context without a key)
@@ -151,7 +151,7 @@ func genC03(t *rapid.T) c03Case {
 	op := rapid.Custom(func(t *rapid.T) c03Op {
 		switch k := rapid.IntRange(0, 19).Draw(t, "k"); {
 		case k < 10:
-			return c03Op{K: "acq", Key: rapid.SampledFrom(c03Keys).Draw(t, "key"), Mode: rapid.SampledFrom([]int{0, 0, 0, 1, 2, 3}).Draw(t, "mode")}
+			return c03Op{K: "acq", Key: rapid.SampledFrom(c03Keys).Draw(t, "key"), Mode: rapid.SampledFrom([]int{0, 0, 0, 1, 2, 3, 4}).Draw(t, "mode")}
 		case k < 15:
 			return c03Op{K: "rel", Idx: rapid.IntRange(0, 1000).Draw(t, "idx")}
 		case k < 17:
@@ -184,6 +184,20 @@ func genC03(t *rapid.T) c03Case {
 		}
 	})
 	c.Ops = rapid.SliceOfN(op, 1, 70).Draw(t, "ops")
+	// a partition that is taken out and put straight back - the same object under the same name, nothing else in
+	// between (a configuration reload): independent draws of "rm" and "add" practically never line up like that
+	var ops []c03Op
+	for _, o := range c.Ops {
+		ops = append(ops, o)
+		if o.K == "rm" && rapid.IntRange(0, 2).Draw(t, "putBack") == 0 {
+			p := c03Part{Name: o.Key, Frac: genFrac().Draw(t, "putBackFrac"), Init: 1, Reuse: true}
+			if c.Kind == "predicate" {
+				p.Keys = []string{o.Key}
+			}
+			ops = append(ops, c03Op{K: "add", Part: &p})
+		}
+	}
+	c.Ops = ops
 	return c
 }
 
@@ -218,6 +232,9 @@ func c03CtxMode(kind, key string, mode int) (ctx context.Context, routed string,
 	}
 	if mode == 0 || mode == 2 {
 		ctx = context.WithValue(ctx, other, key)
+	}
+	if mode == 4 {
+		ctx = context.WithValue(ctx, own, 7) // something that is not a string under the strategy's own key: as good as no key
 	}
 	if mode == 0 || mode == 1 {
 		return ctx, key, true
